@@ -16,14 +16,14 @@ Oracles
 import struct
 
 from mc import core, explore, lap
-from mc.world import World, Monitor
+from mc.world import World, Monitor, open_datagram
 from mc.pair import DeliveryMonitor, app_send, payload, quiescent, RETRY, add_bystander
 from mpgameserver.connection import ConnectionStatus
 
 PROPERTY = "C07"
 LEVEL = "model_checking"
 
-SIZES = {"small": 40, "empty": 0, "frag2": 1700, "frag3": 2600, "P": 1434, "frag40": 40 * 1024 + 100,
+SIZES = {"small": 40, "empty": 0, "frag2": 1700, "frag3": 2600, "P": 1434, "frag40": 40 * 1024 + 100, "frag8": 8 * 1024 + 100, "frag20": 20 * 1024 + 100,
          # the last fragment is as large as a fragment may be (remainder = P-6), one byte more, and what would fit WITHOUT its header
          "fragEdge": 1024 + 1428, "fragEdge+1": 1024 + 1429, "fragEdgeP": 1024 + 1434, "fragEdge2": 2048 + 1431}
 FATES = ["drop", "dup", "delay2", "delay8", "delay70"]
@@ -151,6 +151,21 @@ def scenario(params, ch):
             w.cb_raise["m0"] = False
         if "cbraiseall" in opts:
             w.cb_raise["m0"] = "always"
+        for o in opts:
+            if o.startswith("fragloss"):
+                # content-selective loss: every datagram of the sender that carries fragment number k of a fragmented
+                # message is lost, copies included, for the whole run (the other fragments and everything else get through)
+                k_lost = int(o[8:])
+                src_lost = "s" if sender == "s" else "c0"
+
+                def rule(w_, d, k_lost=k_lost, src_lost=src_lost):
+                    if d.src != src_lost:
+                        return False
+                    for seq, t, pl in (open_datagram(w_, d) or []):
+                        if t == 7 and len(pl) >= 6 and struct.unpack(">HHH", pl[:6])[1] == k_lost:
+                            return True
+                    return False
+                w.drop_rule = rule
         if "cbsend" in opts or "cbsendF" in opts:
             # the application sends from INSIDE its callbacks: m0's callback queues r1 (guaranteed; fragmented with
             # cbsendF), r1's callback queues r2 (unretried) - they are sends like any other
@@ -319,6 +334,17 @@ def params_list(tier):
                     if tier == "quick" and o == "cs|cbraiseall" and b is not None and b[0] != "both":
                         continue
                     out.append((direction, msgs, b, 0, o, 1))
+        # fragmented sends whose copies travel in several datagrams (round trip above the resend interval): one fragment is
+        # lost every time while the copies of the others are acked more than once; and messages with more fragments than
+        # one round trip carries, no loss at all
+        for lat in ((8,) if tier == "quick" else (8, 20)):
+            for retry in ("best", "none"):
+                for o in ("cs|fragloss1", "cs|fragloss2"):
+                    out.append((direction, (("frag2", retry),), None, 0, o, lat))
+                out.append((direction, (("frag3", retry),), None, 0, "cs|fragloss2", lat))
+            for size in ("frag8", "frag20"):
+                for retry in (("best",) if tier == "quick" else ("best", "retry", "none")):
+                    out.append((direction, ((size, retry),), None, 0, "cs", lat))
         # the application sends again from inside its callbacks (told True after an ack, told False after a timeout)
         for o in ("cs|cbsend", "cs|cbsendF"):
             for msgs in ((("small", "none"),), (("small", "retry"),), (("frag2", "none"),), (("small", "none"), ("small", "retry"))):
